@@ -167,6 +167,11 @@ def run_piece(r0, cmd, arm):
         elif k == "stop":
             armed_alts = ["ok"]
             stop_req = True
+        elif k == "stop_start":
+            # stop() and, in the same handler, a start that has to be
+            # refused: the pause that was asked for holds
+            armed_alts = [("ok", "DSOLError")]
+            stop_req = True
         elif k == "end_replication":
             armed_alts = ["ok"]
             ended_by_arm = True
@@ -312,6 +317,9 @@ def alphabet(with_arms=True):
     a = [(c, None) for c in PLAIN]
     if with_arms:
         a += [(("start",), arm) for arm in ARMS]
+        a += [(cmd, (loc, ("stop_start",)))
+              for cmd in (("start",), ("upto", MID))
+              for loc in ("h1", "on:TIME_CHANGED")]
         a += [(("upto", MID), arm) for arm in ARMS
               if arm[0] in ("on:STOP", "on:TIME_CHANGED", "h1")]
     return a
